@@ -101,7 +101,7 @@ func rowreduce01(maxN int) {
 	n := dimChoice(maxN)
 	e := bitElems("m", n)
 	m := NewMatrixFromSlice(n, n, e)
-	k := 2
+	k := 1 + rt.Choice("rhsColumns", 3)
 	ne := make([]T, n*k)
 	for i := range ne {
 		ne[i] = T(rt.U16("n" + string(rune('a'+i))))
@@ -151,7 +151,7 @@ func VerifHarness_C11_rowreduce_concrete() {
 	c := concreteMatrices[rt.Choice("matrix", len(concreteMatrices))]
 	n := c.n
 	m := NewMatrixFromSlice(n, n, c.e)
-	k := 2
+	k := 1 + rt.Choice("rhsColumns", 5) // narrower than, equal to and wider than M
 	ne := make([]T, n*k)
 	for i := range ne {
 		ne[i] = T(rt.U16("n" + string(rune('a'+i))))
